@@ -48,15 +48,16 @@
 //!   `k=0/` (the value slot of a NULL), INSERT INTO a partitioned listing table fails with `Invalid batch
 //!   column … has null but schema specifies non-nullable`; labels `null-partition-value:*`.
 //!
-//! KNOWN FINDING (genuine defect, regressions/C25/c25/insert-into-compressed-text-table-extension.json,
+//! FIXED FINDING (the repair is committed in /repo; the case is now a plain regression and no signature is
+//! recognised any more). Was: genuine defect, regressions/C25/c25/insert-into-compressed-text-table-extension.json,
 //! fixes/C25-insert-compressed-file-extension.diff): INSERT INTO a listing table of compressed CSV/NDJSON
 //! names its files `<id>.csv` / `<id>.json` (`ListingTable::insert_into` passes `format.get_ext()`), COPY and
 //! the DataFrame writers name them `.csv.gz` …; a table registered with the matching extension
 //! (`ListingOptions::with_file_extension(".csv.gz")`, which is what `register_csv` with
 //! `file_extension(".csv.gz")` builds) accepts the INSERT and afterwards returns none of the rows. Found by
 //! the `insert_api` variant (table registered through `register_listing_table`, read back through the same
-//! table). `known_signature` excludes exactly (INSERT sink, API-registered table, CSV/NDJSON, compression ≠
-//! none, ≥ 1 row); `VERIF_C25_NO_EXCLUDE=1` disables the exclusion (used to verify the fix). For tables
+//! table). Before the repair `known_signature` excluded exactly (INSERT sink, API-registered table, CSV/NDJSON,
+//! compression ≠ none, ≥ 1 row). For tables
 //! made by CREATE EXTERNAL TABLE the files are readable (extension filter empty); the independent read-back
 //! then uses the extension the files actually carry (label `compressed-files-without-compression-suffix`).
 //!
@@ -660,16 +661,6 @@ impl Property for C25 {
             "NULL partition values are outside the asserted domain (observe-only labels)".into(),
             "for CSV, NULL and '' of string columns are identified; CSV files carry at least two columns".into(),
         ]
-    }
-    fn known_signature(&self, c: &Case) -> Option<String> {
-        if std::env::var("VERIF_C25_NO_EXCLUDE").map(|v| v == "1").unwrap_or(false) {
-            return None;
-        }
-        let text = matches!(c.format, Fmt::Csv | Fmt::Json);
-        if c.sink == Sink::Insert && c.insert_api && text && c.compression as usize % TEXT_COMP.len() != 0 && !c.rows.is_empty() {
-            return Some("insert-into-compressed-text-table-extension".into());
-        }
-        None
     }
     fn run(&self, c: &Case) -> CaseResult {
         let n = c.cols.len();
